@@ -45,7 +45,7 @@ META = {
 
 SRC_FILES = ["src/rime/algo/syllabifier.cc", "src/rime/algo/syllabifier.h", "src/rime/algo/spelling.h",
              "src/rime/dict/prism.cc", "src/rime/dict/prism.h", "src/rime/algo/algebra.cc", "src/rime/algo/calculus.cc"]
-GENERATOR_VERSION = 2
+GENERATOR_VERSION = 3
 
 
 def hx(s):
@@ -174,6 +174,32 @@ def gen_chain_prism(rng, idx, letters, depth, style):
             p["rows"].append((x, [(y, rng.choice([1, 2, 2]), rng.randint(1, 2)) for y in ss]))
     r = rng.random()
     p["delims"] = "'" if r < 0.7 else " '" if r < 0.85 else ""
+    return p
+
+
+def gen_wide_prism(rng, idx, n_under):
+    """more spellings below one letter than ExpandSearch's limit of 512 lets through: `n_under` four-letter spellings that all
+    begin with the same letter (511, 512, 513, ... of them), next to a few short ones; the completion edge of the input made of
+    that one letter carries the syllables of the first 512 in breadth-first order and no others.  Some of the spellings are
+    abbreviations only (they use up the limit and add nothing to the edge)."""
+    letters = rng.choice(["abcdefghi", "abcdefghij", "bcdefghia"])
+    a = letters[0]
+    combos = [a + x + y + z for x in letters for y in letters for z in letters]
+    if rng.random() < 0.5:
+        rng.shuffle(combos)
+    under = sorted(combos[:n_under])
+    other = sorted({rng.choice(letters[1:]) + rng.choice(letters) for _ in range(rng.randint(0, 3))})
+    mode = rng.choice(["plain", "script", "script"])
+    p = {"name": "wide%d" % idx, "letters": letters, "syls": sorted(set(under + other)), "formulas": [], "rows": [], "mode": mode,
+         "load": True, "delims": "'"}
+    if mode == "script":
+        for k in rng.sample(under, 40):
+            # a typed row on a key that is also a syllable: its own normal reading stays, an abbreviated one of another syllable joins
+            p["rows"].append((k, [(rng.choice(under), rng.choice([1, 2]), 1)]))
+        for _ in range(rng.randint(0, 3)):
+            p["rows"].append((a + rng.choice(letters), [(rng.choice(under), 2, 1)]))      # two-letter abbreviations below the letter
+    last = under[-1]
+    p["inputs"] = [a, a + letters[1], a + letters[-1], last[:2], last[:3], last, last + a, under[0], under[0][:3], letters[1], a + "'", a + a + a + a + a]
     return p
 
 
@@ -615,11 +641,13 @@ def run(c):
         plan = [("abc", 6)] * 2 + [("abc", 5)] * 3 + [("abcd", 5)] * 2 + [("abcd", 4)] * 4 + [("ab", 7)] + [(None, 4)] * 10
         nrand, rlo, rhi = 60, 7, 14
         grid_len, grid_raw, chains = 4, 2, [9, 10, 12]
+        wides = [511, 512, 513, 700]
     else:
         plan = ([("abc", 8)] * 3 + [("abc", 7)] * 6 + [("abcd", 7)] * 2 + [("abcd", 6)] * 6 + [("ab", 10)] * 2
                 + [(None, 5)] * 60)
         nrand, rlo, rhi = 400, 7, 20
         grid_len, grid_raw, chains = 5, 6, [9, 9, 10, 10, 11, 11, 12, 12, 13, 16]
+        wides = [300, 510, 511, 512, 512, 513, 513, 514, 600, 729]
     idx = 0
     for letters, maxlen in plan:
         jobs.append((gen_prism(rng, idx, letters), maxlen, nrand, rlo, rhi))
@@ -641,6 +669,10 @@ def run(c):
         jobs.append((gen_chain_prism(rng, idx, letters, depth, rng.choice(["plain", "plain", "script", "abbrev"])),
                      3 if len(letters) > 1 else 5, nrand, depth, 2 * depth + 4))
         idx += 1
+    # more spellings under one letter than the expand search lets through (limit 512)
+    for n_under in wides:
+        jobs.append((gen_wide_prism(rng, idx, n_under), 1, 0, 1, 2))
+        idx += 1
     maxlens = set()
     for p, maxlen, nr, lo, hi in jobs:
         lines = spec_lines(p)
@@ -652,6 +684,7 @@ def run(c):
         keys = list(p["syls"]) + [k for k, _ in p["rows"]]
         more = key_inputs(rng, keys, p["letters"], p["delims"], 40 if quick else 200)
         more += random_inputs(rng, keys, p["letters"], p["delims"], nr, lo, hi)
+        more += p.get("inputs", [])
         if p.get("chain"):
             w, dl = p["chain"], (p["delims"] or "'")
             more += [w, w + w, w + dl[0] + w, w[1:] + w, w[:-1] + w, w + w[:len(w) // 2]]
@@ -708,7 +741,8 @@ def run(c):
     c.cov = cov
     c.assumptions = ["corrector disabled (Syllabifier::EnableCorrection not called: the default)",
                      "the graph passed in is fresh", "spelling types stored in the prism are <= kInvalidSpelling (real prisms hold 0..2)",
-                     "ExpandSearch limit 512 is not reached by the generated prisms (the theorem states the extension in terms of the limited search)"]
+                     "where ExpandSearch's limit of 512 cuts the completion (the wide prisms) the edge is compared with the model's limited "
+                     "breadth-first search; the monitor's 'remainder begins a spelling => completed' direction is evaluated below the limit"]
 
 
 def replay(c, r):
